@@ -70,11 +70,7 @@ fn c01_crafted_shift_and_offset_patterns() {
             progs.push((format!("(sload(0) >> {shift:#x}) & {mask:02x?} -> sstore"), c));
         }
     }
-    let n = progs.len();
-    for (name, code) in progs {
-        for perm in [false, true] {
-            if let Out::Panic = analyze(&code, perm) {
-                witness("C01", "analyze.panic.shifted_mask", format!("{name}: {code:02x?} permissive={perm}"), "PANIC".into(), "layout or error".into());
+XX, format!("{name}: {code:02x?} permissive={perm}"), "PANIC".into(), "layout or error".into());
             }
         }
     }
